@@ -17,6 +17,15 @@
 #include "qlibc.h"
 #include <inttypes.h>
 
+/* AMBIENT errno: before every library call the harness plants the next value of this cycle; no
+ * result, no reported errno and no state may depend on what the caller happened to have in errno
+ * (a failing call has to SET errno where the harness reports it) */
+static const int PLANTS[8] = {0, ENOMEM, ERANGE, EINTR, ENOENT, EINVAL, EAGAIN, ENOBUFS};
+static unsigned long plant_n = 0;
+static int planted = 0;
+#define PLANT() (errno = planted = PLANTS[plant_n++ % 8])
+#define PLANT_NOT(x) do { PLANT(); if (planted == (x)) PLANT(); } while (0)
+
 /* C12: copies handed out by the library are kept and compared with a private duplicate when the
  * container is released (a retained internal pointer would have been freed or overwritten) */
 typedef struct { void *p; void *dup; size_t n; } kept_t;
@@ -91,7 +100,7 @@ static bool own_node(const char *name, qhashtbl_obj_t *out) {
 static void do_debug(void) {
     char *buf = NULL; size_t n = 0;
     FILE *f = open_memstream(&buf, &n);
-    errno = 0;
+    PLANT();
     bool r = T->debug(T, f);
     fclose(f);
     printf("debug %d ", (int) r); puthex(stdout, buf, n);
@@ -203,7 +212,7 @@ int main(void) {
             if (nw < 3 || !unhex(w[1], &a)) { printf("bad-op\n"); continue; }
             name = cstr_exact(&a);
         }
-        errno = 0;
+        PLANT();
         if ((!strcmp(op, "fault") || !strcmp(op, "faultfrom")) && nw == 2) {
             /* arm: fail the k-th allocation (or all from the k-th) inside the next library call */
             aw_arm(atol(w[1]), op[5] == 'f');
@@ -217,7 +226,7 @@ int main(void) {
             T->free(T);
             long before = aw_live;
             aw_begin();
-            errno = 0;
+            PLANT();
             T = qhashtbl(range, ts ? QHASHTBL_THREADSAFE : 0);
             int e = errno;
             printf("allocs=%ld ", aw_end());
@@ -269,7 +278,7 @@ int main(void) {
             void *p = T->get(T, name, &sz, false);
             if (p && !memchr(p, 0, sz)) printf("nonul");      /* not a C string: the call would over-read */
             else {
-                errno = 0;
+                PLANT();
                 aw_begin();
                 char *s = T->getstr(T, name, true);
                 int e = errno;
@@ -282,7 +291,7 @@ int main(void) {
             void *p = T->get(T, name, &sz, false);
             if (p && !memchr(p, 0, sz)) printf("nonul");
             else {
-                errno = 0;
+                PLANT_NOT(ENOMEM);
                 aw_begin();
                 int64_t v = T->getint(T, name);
                 int e = errno;
@@ -322,7 +331,7 @@ int main(void) {
             printf("walk");
             size_t guard = T->num + 2;
             while (guard-- > 0) {
-                errno = 0;
+                PLANT();
                 bool r = T->getnext(T, &CUR, newmem);
                 printf(" ");
                 show_next(r, errno, newmem);
@@ -338,7 +347,7 @@ int main(void) {
             bool str = mode & 1;
             if (p == NULL || off > sz || (!str && off + ln > sz) || (str && !memchr(p + off, 0, sz - off))) printf("skip");
             else {
-                errno = 0;
+                PLANT();
                 aw_begin();
                 bool r = str ? T->putstr(T, name, (char *) p + off) : T->put(T, name, p + off, ln);
                 int e = errno;
@@ -351,7 +360,7 @@ int main(void) {
             qhashtbl_obj_t o;
             if (!own_node(name, &o) || off > strlen(o.name)) printf("skip");
             else {
-                errno = 0;
+                PLANT();
                 aw_begin();
                 bool r = T->put(T, o.name + off, d.p, d.n);
                 int e = errno;
@@ -367,23 +376,23 @@ int main(void) {
             static const char key[] = "invkey";
             size_t sz = 99; int e[24]; int r[24]; int i = 0;
             aw_arm(0, 0);
-            errno = 0; r[i] = T->put(T, NULL, "v", 2); e[i++] = errno;
-            errno = 0; r[i] = T->put(T, key, NULL, 2); e[i++] = errno;
-            errno = 0; r[i] = T->put(T, NULL, NULL, 0); e[i++] = errno;
-            errno = 0; r[i] = T->putstr(T, NULL, "v"); e[i++] = errno;
-            errno = 0; r[i] = T->putstr(T, key, NULL); e[i++] = errno;
-            errno = 0; r[i] = T->putstrf(T, NULL, "%s", "v"); e[i++] = errno;
-            errno = 0; r[i] = T->putint(T, NULL, 7); e[i++] = errno;
-            errno = 0; r[i] = T->get(T, NULL, &sz, false) != NULL; e[i++] = errno;
-            errno = 0; r[i] = T->get(T, NULL, &sz, true) != NULL; e[i++] = errno;
-            errno = 0; r[i] = T->get(T, NULL, NULL, true) != NULL; e[i++] = errno;
-            errno = 0; r[i] = T->getstr(T, NULL, false) != NULL; e[i++] = errno;
-            errno = 0; r[i] = T->getstr(T, NULL, true) != NULL; e[i++] = errno;
-            errno = 0; r[i] = T->getint(T, NULL) != 0; e[i++] = errno;
-            errno = 0; r[i] = T->remove(T, NULL); e[i++] = errno;
-            errno = 0; r[i] = T->getnext(T, NULL, false); e[i++] = errno;
-            errno = 0; r[i] = T->getnext(T, NULL, true); e[i++] = errno;
-            errno = 0; r[i] = T->debug(T, NULL); e[i++] = errno;          /* documented: EIO */
+            PLANT(); r[i] = T->put(T, NULL, "v", 2); e[i++] = errno;
+            PLANT(); r[i] = T->put(T, key, NULL, 2); e[i++] = errno;
+            PLANT(); r[i] = T->put(T, NULL, NULL, 0); e[i++] = errno;
+            PLANT(); r[i] = T->putstr(T, NULL, "v"); e[i++] = errno;
+            PLANT(); r[i] = T->putstr(T, key, NULL); e[i++] = errno;
+            PLANT(); r[i] = T->putstrf(T, NULL, "%s", "v"); e[i++] = errno;
+            PLANT(); r[i] = T->putint(T, NULL, 7); e[i++] = errno;
+            PLANT(); r[i] = T->get(T, NULL, &sz, false) != NULL; e[i++] = errno;
+            PLANT(); r[i] = T->get(T, NULL, &sz, true) != NULL; e[i++] = errno;
+            PLANT(); r[i] = T->get(T, NULL, NULL, true) != NULL; e[i++] = errno;
+            PLANT(); r[i] = T->getstr(T, NULL, false) != NULL; e[i++] = errno;
+            PLANT(); r[i] = T->getstr(T, NULL, true) != NULL; e[i++] = errno;
+            PLANT(); r[i] = T->getint(T, NULL) != 0; e[i++] = errno;
+            PLANT(); r[i] = T->remove(T, NULL); e[i++] = errno;
+            PLANT(); r[i] = T->getnext(T, NULL, false); e[i++] = errno;
+            PLANT(); r[i] = T->getnext(T, NULL, true); e[i++] = errno;
+            PLANT(); r[i] = T->debug(T, NULL); e[i++] = errno;          /* documented: EIO */
             printf("inv");
             for (int j = 0; j < i; j++) printf(" %d:%s", r[j], e[j] == EIO ? "EIO" : errname(e[j]));
             printf(" sz=%zu", sz);
@@ -392,7 +401,7 @@ int main(void) {
              * call (it takes the lock again) inside lock() ... unlock(); ANOTHER thread then finds the
              * mutex busy (the outer lock is still in force) and free after unlock() */
             T->lock(T);
-            errno = 0;
+            PLANT();
             void *p = T->get(T, "lock-probe-absent-key", NULL, false);
             int e = errno;
             size_t n1 = T->size(T);
